@@ -125,6 +125,12 @@ var c07TypeHi byte
 // the rest of a datagram, the next frame of a stream buffer. Decode accepts that; they are not part of the message.
 var c07Trail int
 
+// c07Post is applied to the decoded Message before the call: 1 clips the capacity of Raw to its length
+// (m.Raw = m.Raw[:n:n]), 2 is a snapshot (struct copy with Raw copied to a new exact allocation; the attribute
+// values still view the original buffer, which holds the same bytes). Both leave every visible byte, Length and
+// the attribute list as they were.
+var c07Post int
+
 func c07Build(parts []c07Part, tid [12]byte, slack int, filler func(i int) byte) []byte {
 	n := 20
 	for _, p := range parts {
@@ -310,6 +316,7 @@ type c07Case struct {
 	Filler2 int   `json:"filler2"`
 	Seed    int64 `json:"seed"`
 	Trail   int   `json:"trail,omitempty"`
+	Post    int   `json:"post,omitempty"`
 }
 
 var c07TID = [12]byte{0x5a, 0x01, 0xfe, 0x33, 0x80, 0x7f, 0x11, 0x22, 0xc3, 0xd4, 0xe5, 0xf6}
@@ -391,6 +398,14 @@ func c07Message(gi, l, class, pos, slack, filler int) *stun.Message {
 	m := &stun.Message{Raw: raw}
 	if err := m.Decode(); err != nil {
 		panic("c07: generated message does not decode: " + err.Error())
+	}
+	switch c07Post {
+	case 1:
+		m.Raw = m.Raw[:len(m.Raw):len(m.Raw)]
+	case 2:
+		snap := *m
+		snap.Raw = append(make([]byte, 0, len(m.Raw)), m.Raw...)
+		return &snap
 	}
 	return m
 }
@@ -499,10 +514,32 @@ func init() {
 										}
 										c07Trail = slack - (si-len(c07Slacks))%2*8
 									}
-									c.Eval(1)
-									c.DistinctByConstruction++
-									out, key, detail := c07Eval(gi, l, class, pos, slack, filler)
-									k := c07Case{Getter: gi, Len: l, Class: class, Pos: pos, Slack: slack, Filler: filler, Pos2: -1, Seed: c.Seed, Trail: c07Trail}
+									// the message as decoded, and (for the capacities with room to lose) with its capacity
+									// clipped / as a snapshot
+									posts := []int{0}
+									if c07Trail == 0 && (slack == 1 || slack == 8 || slack == 64) && filler >= 1 && filler <= 2 {
+										posts = []int{0, 1, 2}
+									}
+									var out, key, detail string
+									var k c07Case
+									for _, post := range posts {
+										c07Post = post
+										c.Eval(1)
+										c.DistinctByConstruction++
+										o2, k2, d2 := c07Eval(gi, l, class, pos, slack, filler)
+										c07Post = 0
+										kk := c07Case{Getter: gi, Len: l, Class: class, Pos: pos, Slack: slack, Filler: filler, Pos2: -1, Seed: c.Seed, Trail: c07Trail, Post: post}
+										if post == 0 {
+											out, key, detail, k = o2, k2, d2, kk
+											continue
+										}
+										if k2 != "" {
+											c.Violation(k2, d2, kk)
+										} else if key == "" && o2 != out {
+											kk.Pos2, kk.Slack2, kk.Filler2 = pos, slack, filler
+											c.Violation("non-local/"+g.Name, fmt.Sprintf("%s on the same message gives %q as decoded but %q after transformation %d (1 = capacity of Raw clipped to its length, 2 = snapshot with a copied Raw); %d-byte value, position %d, cap+%d", g.Name, clipS(out), clipS(o2), post, l, pos, slack), kk)
+										}
+									}
 									c07Trail = 0
 									if key != "" {
 										c.Violation(key, detail, k)
@@ -549,9 +586,9 @@ func init() {
 				}
 				return
 			}
-			c07Trail = k.Trail
+			c07Trail, c07Post = k.Trail, k.Post
 			out, key, detail := c07Eval(k.Getter, k.Len, k.Class, k.Pos, k.Slack, k.Filler)
-			c07Trail = 0
+			c07Trail, c07Post = 0, 0
 			if key != "" {
 				c.Violation(key, detail, k)
 				return
